@@ -7,9 +7,12 @@ CONSTANTS
   ChunkSizes <- MCOne
   NetMayFail = FALSE
   MayLeaveLitter = FALSE
+  CloseDelimited = TRUE
   WriteInPlace = FALSE
   PersistBeforeStatusCheck = FALSE
   TruncatedIsSuccess = FALSE
+  SkipValidation = FALSE
+  FixedTempName = FALSE
   NoStaleFallback = TRUE
   AbortOnRefreshError = FALSE
 INVARIANTS FallsBack
